@@ -99,11 +99,15 @@ def main(argv):
         if mode == "check" and os.path.exists(mp) and json.load(open(mp)).get("obsolete"):
             print(f"skip   {name} (obsolete: no longer a breaking change on the current tree, see meta.json)", flush=True)
             continue
+        meta = json.load(open(mp)) if os.path.exists(mp) else {}
+        if mode == "check" and meta.get("not_asserted"):
+            print(f"n/a    {name} (deliberately not asserted, see meta.json / DESIGN.md 12.6)", flush=True)
+            continue
         if mode == "verify":
             out = verify(name)
             print(name, json.dumps(out), flush=True)
         else:
-            props = sorted(_ENGINES) if allp else [prop]
+            props = sorted(_ENGINES) if allp else (meta.get("caught_by") or [prop])
             res = check(name, props, runs)
             for p, r in res.items():
                 flag = "CAUGHT" if r["exit"] == 1 else ("missed" if r["exit"] == 0 else "ERROR ")
